@@ -116,10 +116,29 @@ func (fw *FileWriter) createNewFile() error {
 
 // openExistingFile opens an existing .hyd file (V2 or V3) and reads its header.
 // For V3 files, it skips past the swamp name to position at the end for appending.
+//
+// Crash recovery: a crash while the file was being created can leave a file
+// that is shorter than its header and name area; such a file never held data
+// and is created afresh. A crash while a block was being appended can leave a
+// partial block at the end of the file; it is cut off before appending,
+// because the reader stops at a torn block and would never see anything
+// written after it.
 func (fw *FileWriter) openExistingFile() error {
 	file, err := os.OpenFile(fw.filePath, os.O_RDWR, 0644)
 	if err != nil {
 		return err
+	}
+
+	info, err := file.Stat()
+	if err != nil {
+		file.Close()
+		return err
+	}
+	size := info.Size()
+
+	if size < FileHeaderSize {
+		file.Close()
+		return fw.createNewFile()
 	}
 
 	// Read header
@@ -135,12 +154,50 @@ func (fw *FileWriter) openExistingFile() error {
 		return err
 	}
 
+	if size < fw.header.DataStartOffset() {
+		file.Close()
+		return fw.createNewFile()
+	}
+
 	fw.file = file
 	fw.blockCount = fw.header.BlockCount
 	fw.entryCount = fw.header.EntryCount
 
-	// Seek to end for appending
-	if _, err := file.Seek(0, io.SeekEnd); err != nil {
+	// Find the end of the last complete block
+	end := fw.header.DataStartOffset()
+	var blocks, entries uint64
+	blockHeaderBuf := make([]byte, BlockHeaderSize)
+	for end+BlockHeaderSize <= size {
+		if _, err := file.ReadAt(blockHeaderBuf, end); err != nil {
+			file.Close()
+			return err
+		}
+		var bh BlockHeader
+		if err := bh.Deserialize(blockHeaderBuf); err != nil {
+			file.Close()
+			return err
+		}
+		next := end + BlockHeaderSize + int64(bh.CompressedSize)
+		if next > size {
+			break
+		}
+		end = next
+		blocks++
+		entries += uint64(bh.EntryCount)
+	}
+
+	if end < size {
+		// Torn tail: drop it and trust the blocks that are really there
+		if err := file.Truncate(end); err != nil {
+			file.Close()
+			return err
+		}
+		fw.blockCount = blocks
+		fw.entryCount = entries
+	}
+
+	// Position after the last complete block for appending
+	if _, err := file.Seek(end, io.SeekStart); err != nil {
 		file.Close()
 		return err
 	}
